@@ -11,6 +11,12 @@ from .core import Partial
 from .routing import SPECS
 
 
+def sig(pid, spec, observable, trigger):
+    """structured violation signature (DESIGN 2.6): env = environment family, config = rest of the spec key"""
+    env, _, config = spec.key.partition(":")
+    return dict(property=pid, env=env, config=config, observable=observable, trigger=trigger)
+
+
 def selected_specs(pred=None):
     only = os.environ.get("VERIF_ONLY")
     out = []
